@@ -724,6 +724,42 @@ def gen():
                   "true" if orders.pop() == "BFS" else "false",
                   new_root["edge_resets"], new_root["face_resets"], new_root["cell_resets"]))
 
+    # ================= default values of the constructors' optional parameters: None / immutable constants only
+    # (a mutable literal such as set() or [] would be one object shared by every call that omits the argument)
+    def immutable(d):
+        if isinstance(d, ast.Constant):
+            return True
+        if isinstance(d, ast.UnaryOp) and isinstance(d.operand, ast.Constant):
+            return True
+        if isinstance(d, ast.Tuple):
+            return all(immutable(x) for x in d.elts)
+        return False
+    dflt = []
+    for rel, classes in ((EDGE, ("EdgeSpanningTree", "EdgeMinimalSpanningTree", "EdgeSpanningForest")),
+                         (FACE, ("FaceSpanningTree", "FaceSpanningForest")),
+                         (CELL, ("CellSpanningTree", "CellSpanningForest")),
+                         (BASE, ("SpanningTree", "SpanningForest"))):
+        s2, t2 = T.load(rel)
+        for cls in classes:
+            fn = T.find_def(t2, cls + ".__init__", rel)
+            parts.append((cls + ".__init__ signature", T.sha(s2, fn.args)))
+            a = fn.args
+            expect(rel, fn, not a.vararg and not a.kwarg and not a.kwonlyargs and not a.posonlyargs, "unexpected parameter kinds in %s.__init__" % cls)
+            names, defaults = params_of(fn)
+            for nme in names[1:]:
+                d = defaults[nme]
+                if d is not None:
+                    dflt.append((cls, nme, U(d), immutable(d)))
+    for cls, nme, txt, ok in dflt:
+        out.append("(* %s(%s=%s): %s *)\n" % (cls, nme, txt.replace("*)", "* )"), "immutable" if ok else "MUTABLE DEFAULT, shared between calls"))
+    out.append("Definition ctor_defaults_immutable : bool := %s.\n" % ("true" if all(ok for *_, ok in dflt) else "false"))
+    fdef = {(c, n): t for c, n, t, _ in dflt}
+    out.append("Definition exclusion_defaults_are_none : bool := %s.\n"
+               % ("true" if fdef.get(("EdgeSpanningTree", "avoid_edges")) == "None" and fdef.get(("FaceSpanningTree", "forbidden_edges")) == "None"
+                  and fdef.get(("CellSpanningTree", "forbidden_faces")) == "None" and fdef.get(("FaceSpanningForest", "forbidden_edges")) == "None"
+                  and fdef.get(("EdgeSpanningTree", "avoid_boundary")) == "False" and fdef.get(("EdgeMinimalSpanningTree", "avoid_boundary")) == "False"
+                  else "false"))
+
     text = T.header("C10: decisions, pop disciplines, weight selector and call plumbing of processing/trees", parts)
     text += ("From Coq Require Import List Arith Bool ZArith.\nImport ListNotations.\nRequire Import MV.C10.Prelude.\n\n"
              + "\n".join(out))
